@@ -18,6 +18,17 @@ def _logreg(C=1.0):
     return LogisticRegression(C=C, max_iter=200)
 
 
+def _pipe_clf(C=1.0):
+    from sklearn.pipeline import Pipeline
+    from sklearn.preprocessing import StandardScaler
+    return Pipeline([("sc", StandardScaler()), ("lr", _logreg(C))])
+
+
+def _warm_logreg():
+    from sklearn.linear_model import LogisticRegression
+    return LogisticRegression(warm_start=True, max_iter=3)
+
+
 def _dtr(d=2):
     from sklearn.tree import DecisionTreeRegressor
     return DecisionTreeRegressor(max_depth=d, random_state=0)
@@ -169,13 +180,13 @@ def entries():
                    [("max_iter", v(10, 30)), ("n_init", v(2, 4)), ("tol", v(1e-3, 1e-4))],
                    data_clu, ["predict", "transform"], seed="rs", bad=[("n < k", _bad_too_few), ("weights", _bad_l1_weights)]))
     E.append(Entry("ConstraintKMeans[weights]",
-                   lambda k: M.ConstraintKMeans(n_clusters=[2, 3][k], strategy="weights", max_iter=[20, 10][k], random_state=[0, 1][k], n_init=2),
-                   [("max_iter", v(10, 20)), ("learning_rate", v(0.5, 1.0))],
+                   lambda k: M.ConstraintKMeans(n_clusters=[2, 3][k], strategy="weights", max_iter=[21, 10][k], random_state=[0, 1][k], n_init=2),
+                   [("max_iter", v(11, 20)), ("learning_rate", v(0.5, 1.0))],
                    data_clu, ["predict", "transform"], seed="global"))
     E.append(Entry("ConstraintKMeans",
-                   lambda k: M.ConstraintKMeans(n_clusters=[2, 3][k], strategy="distance", max_iter=[40, 10][k],
+                   lambda k: M.ConstraintKMeans(n_clusters=[2, 3][k], strategy="distance", max_iter=[41, 10][k],
                                                 random_state=[0, 1][k], n_init=2, kmeans0=[True, False][k]),
-                   [("n_clusters", v(2, 3)), ("max_iter", v(20, 40)), ("balanced_predictions", v(False,)), ("random_state", v(5, 6)),
+                   [("n_clusters", v(2, 3)), ("max_iter", v(21, 40)), ("balanced_predictions", v(False,)), ("random_state", v(5, 6)),
                     ("kmeans0", v(False, True)), ("learning_rate", v(0.5, 2.0))],
                    data_clu, ["predict", "transform"], seed="global", bad=[("n < k", _bad_too_few)]))
     E.append(Entry("PiecewiseRegressor",
@@ -204,6 +215,21 @@ def entries():
                    [("max_depth", v(1, 3)), ("min_samples_leaf", v(1, 2)), ("estimator__C", v(0.5, 2.0)), ("fit_improve_algo", v("none", "auto")),
                     ("gamma", v(0.5, 2.0)), ("p1p2", v(0.1, 0.2))],
                    lambda rng: data_clf(rng, labels=(3, 8)), ["predict", "predict_proba"], bad=[("short y", _bad_short_y)]))
+    E.append(Entry("DecisionTreeLogisticRegression[warm]",
+                   # a warm-started base model: harmless as long as every node trains a clone of it
+                   lambda k: M.DecisionTreeLogisticRegression(max_depth=[1, 2][k], min_samples_leaf=2, estimator=_warm_logreg()),
+                   [("max_depth", v(1, 3)), ("estimator__C", v(0.5, 2.0))],
+                   lambda rng: data_clf(rng, labels=(3, 8)), ["predict", "predict_proba"]))
+    E.append(Entry("PiecewiseRegressor[carry]",
+                   lambda k: M.PiecewiseRegressor(binner=_dtr([1, 2][k]), estimator=stubs.CarryReg([1.0, 2.0][k])),
+                   [("estimator__shift", v(0.5, 3.0)), ("binner__max_depth", v(1, 2))], data_reg, ["predict"]))
+    E.append(Entry("IntervalRegressor[carry]",
+                   lambda k: M.IntervalRegressor(estimator=stubs.CarryReg([1.0, 2.0][k]), n_estimators=[2, 3][k]),
+                   [("estimator__shift", v(0.5, 3.0)), ("n_estimators", v(2, 4))],
+                   data_reg, ["predict", "predict_all", "predict_sorted"], seed="global"))
+    E.append(Entry("TransformedTargetRegressor2[carry]",
+                   lambda k: M.TransformedTargetRegressor2(regressor=stubs.CarryReg([1.0, 2.0][k]), transformer=["log", "log1p"][k]),
+                   [("regressor__shift", v(0.5, 3.0)), ("transformer", v("log1p", "log"))], data_pos, ["predict"]))
     E.append(Entry("IntervalRegressor",
                    lambda k: M.IntervalRegressor(estimator=_lr(), n_estimators=[3, 5][k], alpha=[1.0, 0.5][k]),
                    [("n_estimators", v(2, 4)), ("alpha", v(0.5, 1.5)), ("estimator", [_lr, lambda: _dtr(1)])],
@@ -260,6 +286,11 @@ def entries():
     E.append(Entry("SkBaseTransformLearner",
                    lambda k: SkBaseTransformLearner([_logreg(), _dtc(2)][k], method=["predict_proba", "predict"][k]),
                    [("model__random_state", v(1, 2)), ("method", v("predict", "predict_proba")), ("model", [_logreg, lambda: _dtc(1)])],
+                   data_clf, ["transform"]))
+    E.append(Entry("SkBaseTransformLearner[nested]",
+                   lambda k: SkBaseTransformLearner(_pipe_clf([1.0, 0.5][k]), method=["predict_proba", "predict"][k]),
+                   [("model__lr__C", v(0.25, 2.0)), ("model__sc__with_mean", v(False, True))],
+                   # (model__lr itself is not reconfigured: a Pipeline rewrites its own `steps` key when a step is replaced)
                    data_clf, ["transform"]))
     E.append(Entry("SkBaseTransformStacking",
                    lambda k: SkBaseTransformStacking([[_logreg(), _dtc(2)], [_dtc(1), _logreg(), _dtc(3)]][k], method=["predict_proba", "predict"][k]),
